@@ -443,10 +443,14 @@ fn one_doc(ctx: &mut Ctx, text: &str, node: Option<&Node>, rng: &mut Rng) {
             ctx.count("leaf_mismatch_skipped_nullish");
             continue;
         }
-        let bad = Ty::Seq(Box::new(Ty::Any));
+        // three origins of a type error: raised by the deserializer itself (a sequence is wanted; also a model case),
+        // by the target type through `Error::custom`, and by one of Serde's static constructors (no span of its own)
+        let origin = rng.below(3);
+        let bad = match origin { 0 => Ty::Seq(Box::new(Ty::Any)), 1 => Ty::FailCustom, _ => Ty::FailInvalid };
         let mut c = 0usize;
         let Some(ty) = derive_ty(&expanded, &mut c, target, &bad) else { continue };
-        let r = typed_case(ctx, text, &ty, "leaf-mismatch");
+        ctx.count(&format!("leaf_mismatch_origin_{}", ["deserializer", "custom", "serde_static"][origin]));
+        let r = if origin == 0 { typed_case(ctx, text, &ty, "leaf-mismatch") } else { deserk::run(text, &ty, &opts()) };
         ctx.direct_evaluations += 1;
         ctx.count("leaf_mismatch_runs");
         match r {
@@ -465,7 +469,9 @@ fn one_doc(ctx: &mut Ctx, text: &str, node: Option<&Node>, rng: &mut Rng) {
                         ctx.fail("error-locations-differ-from-spanned", format!("type error at leaf {target}: error reports ({er:?}, {ed:?}), a span-carrying value there has referenced {wr:?} defined {wd:?}"), replay.clone());
                     }
                 } else if er != wr {
-                    ctx.fail("error-location-differs-from-spanned", format!("type error at leaf {target}: error at {er:?}, a span-carrying value there is at {wr:?}"), replay.clone());
+                    // F72 (open): an error raised by the target type for the ROOT node carries no location at all
+                    let class = if origin != 0 && matches!(expanded, Node::Scalar { .. }) && er.line() == 0 { "F72:root-error-without-location" } else { "error-location-differs-from-spanned" };
+                    ctx.fail(class, format!("type error at leaf {target}: error at {er:?}, a span-carrying value there is at {wr:?}"), replay.clone());
                 }
             }
         }
